@@ -17,6 +17,7 @@ import (
 	"sort"
 	"strings"
 	"sync"
+	"sync/atomic"
 	"testing"
 	"time"
 
@@ -71,6 +72,7 @@ type vInst struct {
 	panics  []string
 	acts    int // handler activations so far
 	lockLog []bool
+	deadCh  chan struct{}
 }
 
 type vSim struct {
@@ -81,25 +83,37 @@ type vSim struct {
 	trace  []verifsim.TraceEvent
 	start  time.Time
 	insts  map[string]*vInst
+	allInsts []*vInst
 	dir    string
 	cfgMod func(*config.Config)
 	hook   verifsim.MyHook
 	hosts  []string
 	keepLog bool
+	onEv    func(ev *verifsim.TraceEvent, worldLocked bool)
+	tickWG  sync.WaitGroup // handler goroutines (incl. zombies of killed processes)
+	freezeSeen atomic.Bool // a freeze call (read-only / stop IO) was applied: lazy replication may move
 }
 
 func (s *vSim) now() int64 { return time.Since(s.start).Milliseconds() }
 
-func (s *vSim) logEv(ev verifsim.TraceEvent) {
+func (s *vSim) logEv(ev verifsim.TraceEvent) verifsim.TraceEvent {
 	s.mu.Lock()
 	ev.N = len(s.trace) + 1
 	ev.T = s.now()
 	s.trace = append(s.trace, ev)
 	s.mu.Unlock()
+	return ev
+}
+
+// observe: the single observer hook, called at the linearisation point of every event
+func (s *vSim) observe(ev verifsim.TraceEvent, worldLocked bool) {
+	if s.onEv != nil {
+		s.onEv(&ev, worldLocked)
+	}
 }
 
 func (s *vSim) appEv(by, op, arg, res string) {
-	s.logEv(verifsim.TraceEvent{K: "app", By: by, Op: op, Arg: arg, Res: res})
+	s.observe(s.logEv(verifsim.TraceEvent{K: "app", By: by, Op: op, Arg: arg, Res: res}), false)
 }
 
 // vNewSim creates the world: MySQL servers `hosts`, a ZooKeeper ensemble whose
@@ -112,7 +126,7 @@ func vNewSim(t *testing.T, hosts []string, cascade map[string]string, cfgMod fun
 	}
 	s := &vSim{t: t, W: verifsim.NewMyWorld(hosts...), Z: verifsim.NewZkServer(), start: time.Now(), insts: map[string]*vInst{},
 		dir: dir, cfgMod: cfgMod, hosts: hosts}
-	s.W.Log = s.logEv
+	s.W.Log = func(ev verifsim.TraceEvent) { s.observe(s.logEv(ev), true) }
 	s.Z.Log = func(op verifsim.ZkOp) {
 		val := op.PostData
 		if !op.PostExists {
@@ -126,7 +140,8 @@ func vNewSim(t *testing.T, hosts []string, cascade map[string]string, cfgMod fun
 			arg = strings.Join(op.Removed, ",")
 		}
 		mut := op.Op == "Create" || op.Op == "Delete" || op.Op == "SetData" || op.Op == "Expire" || op.Op == "Close" || op.Op == "ToolSet" || op.Op == "ToolDelete"
-		s.logEv(verifsim.TraceEvent{K: "zk", By: op.Client, At: strings.TrimPrefix(op.Path, vNS+"/"), Op: op.Op, Arg: arg, Res: op.Res, Mut: mut && op.Res == "ok", Val: val})
+		s.observe(s.logEv(verifsim.TraceEvent{K: "zk", By: op.Client, At: strings.TrimPrefix(op.Path, vNS+"/"), Op: op.Op, Arg: arg, Res: op.Res, Mut: mut && op.Res == "ok", Val: val}), false)
+
 	}
 	vCurWorldMu.Lock()
 	vCurWorld = s.W
@@ -232,7 +247,7 @@ func (s *vSim) startInstance(host string) *vInst {
 		os.WriteFile(filepath.Join(dir, "disk_usage"), []byte("10"), 0o644)
 		os.WriteFile(filepath.Join(dir, "fs_ro"), []byte("false"), 0o644)
 	}
-	in := &vInst{name: host, inc: inc, dir: dir, logBuf: &bytes.Buffer{}}
+	in := &vInst{name: host, inc: inc, dir: dir, logBuf: &bytes.Buffer{}, deadCh: make(chan struct{})}
 	cfg := s.baseConfig(host, inc, dir)
 	var lw zerolog.Logger
 	if s.keepLog {
@@ -277,6 +292,7 @@ func (s *vSim) startInstance(host string) *vInst {
 	}
 	in.app = app
 	s.insts[host] = in
+	s.allInsts = append(s.allInsts, in)
 	s.appEv(host, "Start", fmt.Sprint(inc), "")
 	return in
 }
@@ -288,11 +304,13 @@ func (s *vSim) kill(host string) {
 		return
 	}
 	in.dead = true
+	close(in.deadCh)
 	s.appEv(host, "Kill", "", "")
 	s.W.KillInstance(host)
 	s.Z.Cut(host)
-	in.zkc.Close()
-	s.closeNodes(in)
+	// NB: the node handles are NOT closed here: the zombie handler goroutine may still
+	// be inside a retry loop, and "database is closed" errors cost no virtual time
+	go in.zkc.Close()
 }
 
 func (s *vSim) closeNodes(in *vInst) {
@@ -314,15 +332,23 @@ func (s *vSim) closeNodes(in *vInst) {
 
 // shutdown ends the scenario: every instance is stopped so that the bubble can drain.
 func (s *vSim) shutdown() {
-	for _, in := range s.insts {
+	for _, in := range s.allInsts {
 		if !in.dead {
 			in.dead = true
+			close(in.deadCh)
+			s.W.KillInstance(in.name)
 			s.Z.Cut(in.name)
 			in.zkc.Close()
-			s.closeNodes(in)
-			s.W.KillInstance(in.name)
 		}
 	}
+	s.W.Shutdown()
+	s.tickWG.Wait() // every handler goroutine has unwound
+	for _, in := range s.allInsts {
+		s.closeNodes(in)
+	}
+	// let stragglers (zk client close, pool cleaners, zombie handlers of killed
+	// processes) run to completion on the virtual clock before the bubble ends
+	time.Sleep(3 * time.Minute)
 	vCurWorldMu.Lock()
 	if vCurWorld == s.W {
 		vCurWorld = nil
@@ -333,12 +359,30 @@ func (s *vSim) shutdown() {
 
 // tick runs one iteration of Run's loop body for the instance: handlers are
 // called until the state stops changing.  Panics are recovered (the process
-// would have died) and recorded.
+// would have died) and recorded.  The body runs in its own goroutine so that a
+// process killed in the middle of a handler does not hold up the driver: its
+// goroutine unwinds in the background (every external call of it fails).
 func (s *vSim) tick(host string) (final appState) {
 	in := s.insts[host]
 	if in == nil || in.dead {
 		return ""
 	}
+	done := make(chan appState, 1)
+	s.tickWG.Add(1)
+	go func() {
+		defer s.tickWG.Done()
+		done <- s.tickBody(in)
+	}()
+	select {
+	case st := <-done:
+		return st
+	case <-in.deadCh:
+		return "DEAD"
+	}
+}
+
+func (s *vSim) tickBody(in *vInst) (final appState) {
+	host := in.name
 	app := in.app
 	handlers := map[appState](func() appState){
 		stateFirstRun:    app.stateFirstRun,
@@ -357,10 +401,17 @@ func (s *vSim) tick(host string) (final appState) {
 		}
 	}()
 	for i := 0; i < 6; i++ {
+		if in.dead {
+			return "DEAD"
+		}
 		st := app.state
 		in.acts++
 		s.appEv(host, "Enter", string(st), "")
 		next := handlers[st]()
+		if in.dead {
+			s.appEv(host, "ExitDead", string(st), string(next))
+			return "DEAD"
+		}
 		s.appEv(host, "Exit", string(st), string(next))
 		if next == app.state {
 			break
